@@ -132,13 +132,20 @@ def sweep_plan(tier):
                 cases.append({"content": cid, "lexer": lexer, "kind": "lost_line"})
                 cases.append({"content": cid, "lexer": lexer, "kind": "swap_lines"})
                 cases.append({"content": cid, "lexer": lexer, "kind": "misc"})
+        elif n > 8192:
+            # padded > 64 KiB texts: token boundaries (the padding is a handful of tokens) + sample
+            for kind in BYTE_KINDS:
+                cases.append({"content": cid, "lexer": lexer, "kind": kind, "mode": "boundaries", "cap": 600})
+            for kind in LINE_KINDS + ("misc",):
+                cases.append({"content": cid, "lexer": lexer, "kind": kind, "cap": 200})
         else:
             parts = max(1, n // 300)
             for kind in BYTE_KINDS:
                 for part in range(parts):
                     cases.append({"content": cid, "lexer": lexer, "kind": kind, "part": part, "parts": parts})
-            for kind in LINE_KINDS + ("flip_byte", "zero_tail", "misc"):
-                cases.append({"content": cid, "lexer": lexer, "kind": kind})
+            if n <= 8192:
+                for kind in LINE_KINDS + ("flip_byte", "zero_tail", "misc"):
+                    cases.append({"content": cid, "lexer": lexer, "kind": kind})
     if tier != "quick":
         # the same texts under two other languages' lexers (a file stored under the wrong
         # extension): malformed for that language in ways no truncation of its own texts gives
@@ -159,6 +166,7 @@ WORLD_FAULTS = ("torn_prefix", "lost_head", "lost_line", "dup_line", "swap_lines
 
 def gen_world(i, R, rng, sw):
     swarm = {"set_policy": sw.choice(("mixed", "insertion")), "walk_policy": sw.choice(("shuffled", "sorted", "reversed")),
+        "dot_root": sw.random() < 0.12,
              "mode": "world"}
     ops = []
     neighbours = {}
